@@ -109,12 +109,13 @@ def replay(case):
     outs_type = {"tuple": tuple, "iter": iter}.get(case.get("outs"), list)
     if case.get("staged"):
         # the transducer is queried while it is being built: first without its last two calls, then completed
-        cut = max(1, len(case["hist"]) - 2)
-        t, _ = fsth.build(case["hist"][:cut], case["spool"], outs=outs_type)
+        calls = [c for c in case["hist"] if c[0] != "add_transition"] + [c for c in case["hist"] if c[0] == "add_transition"]
+        cut = max(1, len(calls) - 2)          # start and final states first; the last two transitions come after a query
+        t, _ = fsth.build(calls[:cut], case["spool"], outs=outs_type)
         fsth.translate_all(t, words)
         _, spec = fsth.build(case["hist"], case["spool"])
         sm = fsth.STATE_POOLS[case["spool"]]
-        for c in case["hist"][cut:]:
+        for c in calls[cut:]:
             if c[0] == "add_transition":
                 t.add_transition(sm[c[1]], "epsilon" if c[2] == "eps" else c[2], sm[c[3]], outs_type(c[4]))
             elif c[0] == "add_start_state":
